@@ -113,6 +113,15 @@ def run(c, facts, tier):
                         okp = inner.endswith(".port") or inner.endswith(".mutex")
                         det = "reference through a stored port record: %s" % ixt[:80]
                     c.ob("C11.scope", site, "%s ← %s:%s" % (binder, kd, ixt[:40]), okp, det, nontrivial=False)
+                # C11.stored: the index stored in the sharing table is the binder emitted on this path
+                for fld, kv in p.inserts:
+                    if fld not in ("printers", "matches") or len(kv) != 2:
+                        continue
+                    want_kind = {"printers": "print", "matches": "match"}[fld]
+                    bix = [i for kd, i, role in names if role == "binder" and kd == want_kind]
+                    val = mgr.idx_of("{" + kv[1] + "}") if not kv[1].isdigit() else (None, int(kv[1]))
+                    oks = len(bix) == 1 and val == bix[0]
+                    c.ob("C11.stored", site, "%s[%s] = index of the %s binder" % (fld, inst[:50], want_kind), oks, "stored value %s; binder emitted on this path: %s — a later identical request would otherwise be handed a different resource" % (val, bix), witness="-name *.c -name main.c -o -name *.c -print0" if not oks else None)
                 # C11.key
                 for fld, kv in p.inserts:
                     key = kv[0]
@@ -128,6 +137,10 @@ def run(c, facts, tier):
                     if fld in ("printers", "matches"):
                         keys.add(kv[0])
             for key in keys:
+                # the key must be built from the parameters themselves (copies), not from a function of them that could merge requests
+                stripped = re.sub(r'"\{@\d+\}"|@\d+|self\.(files|default_port)\.[a-z_]+\([^()]*(\([^()]*\))?[^()]*\)\.unwrap\(\)|self\.default_port\.unwrap\(\)|Target::(File|Stdout)|[(),]', "", key)
+                inj = stripped.strip() == ""
+                c.ob("C11.key", site, "sharing key is made of the request parameters themselves", inj, "key %s%s" % (key, "" if inj else " — contains a derived value (%s): two different requests may map to one key and share a resource" % stripped.strip()[:60]), witness="-name Makefile -o -name makefile" if not inj else None)
                 missing = [i for i in range(nparams) if "@%d" % i not in key]
                 c.ob("C11.key", site, "sharing key contains every request parameter", not missing, "key %s; request parameters missing from it: %s" % (key, ["@%d=%s" % (i, fn.params[i][0]) for i in missing]), witness="-name x -iname x" if missing and meth == "get_matcher" else None)
             if not keys:
